@@ -203,7 +203,10 @@ def run_stream(stream, seed, n, outdir, race=False, extra_args=None, timeout=180
     cmd = [binp, stream, "-seed", str(seed), "-n", str(n), "-out", outdir, "-shards", str(NPROC)]
     if extra_args:
         cmd += extra_args
-    rc, out, dt = sh(cmd, cwd=HARNESS, env=GOENV, timeout=timeout)
+    env = dict(GOENV)
+    if race:
+        env["GORACE"] = "log_path=%s exitcode=0 halt_on_error=0" % os.path.join(outdir, "race")
+    rc, out, dt = sh(cmd, cwd=HARNESS, env=env, timeout=timeout)
     return rc, out, dt
 
 
@@ -294,6 +297,14 @@ def one_pass(prop, cfg, tier, seed, scale=1, tag="main"):
         if rc != 0:
             res["errors"].append("stream %s failed (exit %d): %s" % (stream, rc, out[-1500:]))
             continue
+        if race:
+            for fn in sorted(os.listdir(outdir)):
+                if fn.startswith("race."):
+                    txt = open(os.path.join(outdir, fn)).read()
+                    if "DATA RACE" in txt:
+                        res["go_fails"].append({"stream": stream, "what": "the Go race detector reported a data race",
+                                                "case": {"race_report": txt[:4000]}})
+                        break
         pf, mm, errs, edt, meta = eval_shards(outdir, stream)
         res["eval_s"] += edt
         res["errors"] += errs
